@@ -133,7 +133,20 @@ pub fn replay(cases_path: &str, out: &str) {
                         slots[a] = Treap::merge(Treap::merge(l, nd), r);
                         None
                     }
-                    "remove_at" => Some(slots[a].remove_at(getu(op, "x")).c),
+                    "remove_at" => {
+                        let it = slots[a].remove_at(getu(op, "x"));
+                        // the item handed back is a clean singleton (its own aggregate, nothing pending)
+                        if it.h != it.c || it.len != 1 || it.pa != 1 || it.pb != 0 { Some(-1000 - it.len) } else { Some(it.c) }
+                    }
+                    "move" => {
+                        // remove_at, then the returned item object itself goes into a new node with the chosen priority
+                        let it = slots[a].remove_at(getu(op, "x"));
+                        let (to, prio) = (op["y"][0].as_u64().unwrap() as usize, op["y"][1].as_u64().unwrap() as u32);
+                        let (l, r) = take(&mut slots, a).split_at(to);
+                        let nd = Treap { root: Some(Box::new(TreapNode { item: it, priority: prio, left: None, right: None })) };
+                        slots[a] = Treap::merge(Treap::merge(l, nd), r);
+                        None
+                    }
                     "root_modify" => {
                         let m = (op["x"][0].as_i64().unwrap(), op["x"][1].as_i64().unwrap());
                         slots[a].root_mut().unwrap().apply(m);
@@ -251,8 +264,15 @@ pub fn record(seed: u64, tier: &str, out: &str) {
                     }
                     0..=34 => {
                         let pos = rng.usize(n);
-                        let got = lv.slots[s].remove_at(pos).c;
+                        let it = lv.slots[s].remove_at(pos);
+                        let got = it.c;
                         lv.t.ev(json!({"ev": "remove_at", "a": s, "pos": pos, "res": got}));
+                        if rng.chance(1, 3) {
+                            // move: the returned item itself is inserted again
+                            let to = rng.usize(n);
+                            lv.slots[s].insert_at(to, it);
+                            lv.t.ev(json!({"ev": "insert_at", "a": s, "pos": to, "c": got}));
+                        }
                     }
                     35..=54 => {
                         // range modify / range aggregate: split out [l, r], act on its root, merge back
@@ -505,6 +525,12 @@ pub fn record_shape(seed: u64, tier: &str, out: &str) {
                     ckpt(&mut t, &tr, hist);
                     checkpoints += 1;
                 }
+                // far out of shape already: checkpoint it as it is and stop this history (O(n) per operation from here)
+                if i >= 1023 && (i + 1).is_power_of_two() && walk(&tr.root).0 > 8 * (usize::BITS - (i + 1).leading_zeros()) as usize + 40 {
+                    ckpt(&mut t, &tr, hist);
+                    checkpoints += 1;
+                    break;
+                }
             }
             // dismantle from the front: heights must stay bounded while shrinking too
             if hist == "churn" {
@@ -533,7 +559,17 @@ pub fn record_shape(seed: u64, tier: &str, out: &str) {
         let per = if k.is_power_of_two() && k >= 512 { if thorough { 3000 } else { 2500 }.min(6_000_000 / k) }
                   else { if thorough { 600 } else { 250 }.min(400_000 / k).max(60) };
         let mut ts: Vec<Treap<TItem>> = (0..k).map(|_| Treap::new()).collect();
+        let mut degenerate = false;
         for round in 0..per {
+            // a group that is already far out of shape is reported as it is (its checkpoints are judged below like
+            // any other); carrying on would only take O(n) per operation
+            if round >= 127 && (round + 1).is_power_of_two() {
+                let lim = 8 * (usize::BITS - (round + 1).leading_zeros()) as usize + 40;
+                if ts.iter().take(6).any(|tr| walk(&tr.root).0 > lim) {
+                    degenerate = true;
+                    break;
+                }
+            }
             for (i, tr) in ts.iter_mut().enumerate() {
                 match (k + i) % 3 {
                     0 => tr.insert_at(round, TItem::new(1)),  // sorted append
@@ -552,6 +588,9 @@ pub fn record_shape(seed: u64, tier: &str, out: &str) {
         for &(_, i) in hs.iter().rev().take(3) {
             ckpt(&mut t, &ts[i], &format!("{} treaps filled round-robin", k));
             checkpoints += 1;
+        }
+        if degenerate {
+            break;
         }
     }
     let ev = t.finish();
